@@ -9,6 +9,7 @@ package main
 
 import (
 	"fmt"
+	"regexp"
 	"go/constant"
 	"go/token"
 	"go/types"
@@ -116,9 +117,14 @@ func implies(a, b Tm) Tm {
 	return tm(SBool, "(=> %s %s)", a.S, b.S)
 }
 
+var numLitRe = regexp.MustCompile(`^(\d+|\(- \d+\)|\(_ bv\d+ \d+\))$`)
+
 func eq(a, b Tm) Tm {
 	if a.S == b.S {
 		return tTrue
+	}
+	if numLitRe.MatchString(a.S) && numLitRe.MatchString(b.S) {
+		return tFalse // distinct numerals
 	}
 	return tm(SBool, "(= %s %s)", a.S, b.S)
 }
